@@ -310,9 +310,13 @@ class Runner:
 
 
 # ---------------------------------------------------------------- evidence
+SELFTEST = os.path.abspath(REPO) != '/repo'
+OUT_DIR = VERIF if not SELFTEST else os.path.join(CACHE, 'selftest-' + _tag)
+
+
 def write_evidence(prop, doc):
-    os.makedirs(os.path.join(VERIF, 'evidence'), exist_ok=True)
-    p = os.path.join(VERIF, 'evidence', prop + '.json')
+    os.makedirs(os.path.join(OUT_DIR, 'evidence'), exist_ok=True)
+    p = os.path.join(OUT_DIR, 'evidence', prop + '.json')
     tmp = p + '.tmp'
     with open(tmp, 'w') as f:
         json.dump(doc, f, indent=1, sort_keys=True)
